@@ -121,7 +121,7 @@ impl<'a> Gen<'a> {
         let composite_ok = depth + 1 < self.cfg.max_depth && self.budget > 1;
         let abortable_ok = self.cfg.abortable && !flags.strict_completion;
         let sw = if self.cfg.scripts { self.cfg.script_weight } else { 0 };
-        let weights: [u32; 13] = [
+        let weights: [u32; 14] = [
             3,                                   // 0 Done
             6,                                   // 1 Event
             5,                                   // 2 Notify
@@ -135,6 +135,7 @@ impl<'a> Gen<'a> {
             if composite_ok { 4 } else { 0 },    // 10 MapEffect
             if composite_ok { 2 } else { 0 },    // 11 FromInto
             if composite_ok && abortable_ok { 4 } else { 0 }, // 12 Abortable
+            if composite_ok { 3 } else { 0 },    // 13 Guarded
         ];
         match self.rng.weighted(&weights) {
             0 => Cmd::Done,
@@ -202,6 +203,11 @@ impl<'a> Gen<'a> {
                 let h = self.handle;
                 self.handle += 1;
                 Cmd::Abortable(Box::new(self.cmd(depth + 1, flags)), h)
+            }
+            13 => {
+                let c = self.counter;
+                self.counter += 1;
+                Cmd::Guarded(Box::new(self.cmd(depth + 1, flags)), c)
             }
             _ => unreachable!(),
         }
